@@ -100,7 +100,7 @@ def handle (j : Json) : List (String × Json) :=
   let failAt := jnat j "failAt"
   let t := mockTree failAt
   let fixRoot := jbool j "fixroot"
-  let m := match build false true .expr none bs with
+  let m : String := match build false true .expr none bs with
     | .machine prog =>
       let o := XM.run fixRoot t prog
       showOutcome o.trace o.value o.err
@@ -114,6 +114,15 @@ def handle (j : Json) : List (String × Json) :=
   -- a callback that panics with a value that says nothing: still an error, but not the tree's
   let opq := jstr j "panic" = "int" || jstr j "panic" = "struct"
   let fix (x : String) : String := if opq then x.replace s!"error:tree:injected-fault-{failAt}" "error:internal" else x
+  if jstr j "mode" = "pair" then
+    -- two paths under one operator: the requests of the first, then those of the second, each from the context node
+    let p2 := pathOf (jobj j "p2")
+    let (tr2, _) := evalPath t p2
+    let mm : String := (match build false true .expr none bs with
+      | .machine prog => "pair:" ++ String.intercalate ";" (XM.run fixRoot t prog).trace
+      | _ => m)
+    [("m", mm), ("s", "pair:" ++ String.intercalate ";" (tr ++ tr2)),
+     ("dc", Json.bool (dupKeys p || multiIn t p || dupKeys p2 || multiIn t p2))] else
   -- `nospec`: an expression that is no path (what the run of the machine has to end in is what the machine model says)
   if jbool j "nospec" then [("m", fix m), ("s", fix m), ("dc", Json.bool false)] else
   [("m", fix m), ("s", fix s), ("dc", Json.bool (dupKeys p || multiIn t p))]
